@@ -16,6 +16,28 @@ CLAIMED = {
                 "exhaustive for n<=3 darts quick / n<=4 thorough); fast-stm modelled sequentially here (concurrency is C07).",
         "design_ref": "DESIGN.md §7 C01",
     },
+    "C06": {
+        "text": "Lean 4 theorems: for every transactional closure over a map (hence every modelled core call and kernel, every attribute "
+                "law and every fault position k) an outcome other than Ok leaves the map unchanged, both for the sequential semantics and "
+                "for the transaction-log semantics of fast-stm (T1: log semantics = sequential semantics, proved generically). The claim "
+                "about the CODE (operations write only through their Transaction) is carried by the tie: a fault-injection campaign on "
+                "the real crates (user attribute laws failing at the k-th update, every k) with full before/after snapshots, diffed "
+                "against the model.",
+        "note": "Trusted: Lean kernel + 3 standard axioms; the model of fast-stm's log is hand-written; 'operations are closures over "
+                "the log' is tested (campaign), not proved; kernels join the campaign as their models are added.",
+        "design_ref": "DESIGN.md §7 C06, §4.1",
+    },
+    "C08": {
+        "text": "Lean 4 theorems: for every list of transactional closures, if each succeeds when run one after the other (each in its "
+                "own atomically_with_err) then the single atomic block returns the same results and exactly the same map, and "
+                "conversely; proved for the sequential semantics and, via T1 (read-your-writes through the transaction log), for the "
+                "log semantics fast-stm implements. Tie: every generated straight-line program is executed on the real crates both ways "
+                "from the same state and compared with each other and with the model.",
+        "note": "Trusted: Lean kernel + 3 standard axioms; hand-written model of the log; that real operations read shared state only "
+                "through the transaction is tested by the differential run, not proved (3-D three_sew and the vertex-insertion kernel "
+                "are known exceptions, reported as findings once those streams are enabled).",
+        "design_ref": "DESIGN.md §7 C08, §4.1",
+    },
 }
 
 REASONS_NOT_YET = "check not built yet in this round (planned, see DESIGN.md §7); no claim is made"
